@@ -2,11 +2,11 @@
    one of two designed error codes (301 invalid character, 303 unexpected end) - it never runs out of fuel, because every
    helper hands back a remainder that is no longer than what it was given. *)
 From Coq Require Import List NArith Bool Lia.
-From JS Require Import Base.Res Spec.JsonGrammar Model.EnumParse Model.SchemaText Proofs.EnumProofs Proofs.JsonValueProofs Proofs.SchemaTextProofs.
+From JS Require Import Base.Res Spec.JsonGrammar Model.EnumParse Model.SchemaText Proofs.EnumProofs Proofs.JsonValueProofs Proofs.SchemaTextProofs Proofs.AnnotationProofs.
 Import ListNotations.
 Local Open Scope N_scope.
 
-Ltac dhead c := destruct c as [|?p]; [|repeat (match goal with p : positive |- _ => destruct p as [p|p|] end)].
+Ltac dhead c := destruct c as [|?p]; [|do 7 (try match goal with p : positive |- _ => destruct p as [p|p|] end)].
 
 Lemma trim_left_len s : (length (trim_left s) <= length s)%nat.
 Proof. induction s as [|c r IH]; [cbn; lia|]. cbn [trim_left]. destruct (is_blank c); cbn [length]; lia. Qed.
@@ -39,46 +39,35 @@ Lemma prval_len : forall f,
 Proof.
   induction f as [|f (IHV & IHI & IHM)]; [repeat split; intros; discriminate|].
   assert (HV : forall s v r, prval (S f) s = Some (v, r) -> (length r <= length s)%nat).
-  { intros s v r H. pose proof (trim_left_len s) as Ht. cbn [prval] in H. destruct (trim_left s) as [|c t] eqn:Es.
+  { intros s v r H. pose proof (trim_left_len s) as Ht. rewrite prval_eq in H. destruct (trim_left s) as [|c t] eqn:Es.
     - destruct (scalar []) as [[l rest]|] eqn:Sc; [|discriminate]. inversion H; subst. apply scalar_len in Sc. cbn [length] in *. lia.
-    - assert (Hsc : match scalar (c :: t) with Some (lit, rest) => Some (RScal lit, rest) | None => None end = Some (v, r) -> (length r <= length s)%nat).
-      { intros X. destruct (scalar (c :: t)) as [[l rest]|] eqn:Sc; [|discriminate]. inversion X; subst. apply scalar_len in Sc. lia. }
-      pose proof (trim_left_len t) as Ht2.
-      dhead c; try exact (Hsc H).
-      + (* [ *) destruct (trim_left t) as [|c' r'] eqn:Et; [apply IHI in H; cbn [length] in *; lia|].
-        assert (Hi : pritems f t [] = Some (v, r) -> (length r <= length s)%nat) by (intros X; apply IHI in X; cbn [length] in *; lia).
-        dhead c'; try exact (Hi H). inversion H; subst. cbn [length] in *. lia.
-      + (* @ *) destruct (take_while name_byte t) as [nm r'] eqn:Ew. inversion H; subst. pose proof (take_while_len name_byte t) as X. rewrite Ew in X. cbn [snd length] in *. lia.
-      + (* { *) destruct (trim_left t) as [|c' r'] eqn:Et; [apply IHM in H; cbn [length] in *; lia|].
-        assert (Hi : prmembers f t [] = Some (v, r) -> (length r <= length s)%nat) by (intros X; apply IHM in X; cbn [length] in *; lia).
-        dhead c'; try exact (Hi H). inversion H; subst. cbn [length] in *. lia. }
+    - pose proof (trim_left_len t) as Ht2. cbn [length] in Ht.
+      destruct (c =? 91).
+      { destruct (trim_left t) as [|c' r'] eqn:Et; [apply IHI in H; lia|].
+        destruct (c' =? 93); [inversion H; subst; cbn [length] in *; lia|apply IHI in H; lia]. }
+      destruct (c =? 123).
+      { destruct (trim_left t) as [|c' r'] eqn:Et; [apply IHM in H; lia|].
+        destruct (c' =? 125); [inversion H; subst; cbn [length] in *; lia|apply IHM in H; lia]. }
+      destruct (c =? 64).
+      { pose proof (take_while_len name_byte t) as X. destruct (take_while name_byte t) as [nm r'] eqn:Ew. inversion H; subst. cbn [snd] in X. lia. }
+      destruct (scalar (c :: t)) as [[l rest]|] eqn:Sc; [|discriminate]. inversion H; subst. apply scalar_len in Sc. cbn [length] in Sc. lia. }
   assert (HI : forall s acc v r, pritems (S f) s acc = Some (v, r) -> (length r <= length s)%nat).
-  { intros s acc v r H. cbn [pritems] in H. destruct (prval f s) as [[v1 r1]|] eqn:Ep; [|discriminate]. apply IHV in Ep.
-    pose proof (trim_left_len r1) as Ht. destruct (trim_left r1) as [|c r'] eqn:Et; [discriminate|].
-    dhead c; try discriminate.
-    - apply IHI in H. cbn [length] in *. lia.
-    - inversion H; subst. cbn [length] in *. lia. }
+  { intros s acc v r H. rewrite pritems_eq in H. destruct (prval f s) as [[v1 r1]|] eqn:Ep; [|discriminate]. apply IHV in Ep.
+    pose proof (trim_left_len r1) as Ht. destruct (trim_left r1) as [|c r'] eqn:Et; [discriminate|]. cbn [length] in Ht.
+    destruct (c =? 44); [apply IHI in H; lia|]. destruct (c =? 93); [inversion H; subst; lia|discriminate]. }
   assert (HM : forall s acc v r, prmembers (S f) s acc = Some (v, r) -> (length r <= length s)%nat).
-  { intros s acc v r H. cbn [prmembers] in H. pose proof (trim_left_len s) as Ht0.
-    set (key := match trim_left s with
-                | 34 :: r0 => match str_body r0 [34] with Some (k, r1) => Some (removelast (tl k), r1) | None => None end
-                | _ => let (nm, r1) := take_while name_byte (trim_left s) in match nm with [] => None | _ :: _ => Some (nm, r1) end
-                end) in *.
-    assert (Hkey : forall k r1, key = Some (k, r1) -> (length r1 <= length s)%nat).
-    { intros k r1 Hk. unfold key in Hk. destruct (trim_left s) as [|c t] eqn:Es.
-      - cbn in Hk. discriminate.
-      - assert (Hb : (let (nm, r2) := take_while name_byte (c :: t) in match nm with [] => None | _ :: _ => Some (nm, r2) end) = Some (k, r1) -> (length r1 <= length s)%nat).
-        { intros X. pose proof (take_while_len name_byte (c :: t)) as L. destruct (take_while name_byte (c :: t)) as [nm r2]. destruct nm; [discriminate|]. inversion X; subst. cbn [snd] in L. lia. }
-        dhead c; try exact (Hb Hk).
-        destruct (str_body t [34]) as [[k0 r0]|] eqn:Eb; [|discriminate]. inversion Hk; subst. apply str_body_len in Eb. cbn [length] in *. lia. }
-    destruct key as [[k r1]|]; [|discriminate]. specialize (Hkey k r1 eq_refl).
-    pose proof (trim_left_len r1) as Ht1. destruct (trim_left r1) as [|c1 r2] eqn:E1; [discriminate|].
-    dhead c1; try discriminate.
+  { intros s acc v r H. rewrite prmembers_eq in H. pose proof (trim_left_len s) as Ht0.
+    assert (Hkey : forall k r1, key_of_text (trim_left s) = Some (k, r1) -> (length r1 <= length s)%nat).
+    { intros k r1 Hk. unfold key_of_text, bare_key in Hk. destruct (trim_left s) as [|c t] eqn:Es; [cbn in Hk; discriminate|].
+      cbn [length] in Ht0. destruct (c =? 34).
+      - destruct (str_body t [34]) as [[k0 r0]|] eqn:Eb; [|discriminate]. inversion Hk; subst. apply str_body_len in Eb. lia.
+      - pose proof (take_while_len name_byte (c :: t)) as L. destruct (take_while name_byte (c :: t)) as [nm r2]. destruct nm; [discriminate|]. inversion Hk; subst. cbn [snd length] in L. lia. }
+    destruct (key_of_text (trim_left s)) as [[k r1]|]; [|discriminate]. specialize (Hkey k r1 eq_refl).
+    pose proof (trim_left_len r1) as Ht1. destruct (trim_left r1) as [|c1 r2] eqn:E1; [discriminate|]. cbn [length] in Ht1.
+    destruct (c1 =? 58); [|discriminate].
     destruct (prval f r2) as [[v1 r3]|] eqn:Ep; [|discriminate]. apply IHV in Ep.
-    pose proof (trim_left_len r3) as Ht3. destruct (trim_left r3) as [|c3 r4] eqn:E3; [discriminate|].
-    dhead c3; try discriminate.
-    - apply IHM in H. cbn [length] in *. lia.
-    - inversion H; subst. cbn [length] in *. lia. }
+    pose proof (trim_left_len r3) as Ht3. destruct (trim_left r3) as [|c3 r4] eqn:E3; [discriminate|]. cbn [length] in Ht3.
+    destruct (c3 =? 44); [apply IHM in H; lia|]. destruct (c3 =? 125); [inversion H; subst; lia|discriminate]. }
   auto.
 Qed.
 
@@ -128,16 +117,18 @@ Proof.
     destruct r1 as [|c2 r2]; [exact Hl|]. dhead c2; try exact Hl.
     destruct (take_until3 35 r2) as [[u v]|] eqn:E; [|right; reflexivity]. apply IH. pose proof (take_until3_len _ _ _ _ E). cbn [length] in *. lia. }
   destruct (c =? 47).
-  { destruct r as [|c1 r1]; [left; reflexivity|]. dhead c1; try (left; reflexivity).
-    - (* block *) destruct (block_ann r1) as [[a rest]|] eqn:E; [|left; reflexivity]. apply bind_ok, IH. pose proof (block_ann_len _ _ _ E). cbn [length] in *. lia.
-    - (* line *) pose proof (take_line_len r1) as L. destruct (take_line r1) as [text rest]. cbn [snd] in L.
+  { destruct r as [|c1 r1]; [left; reflexivity|].
+    destruct (N.eq_dec c1 42) as [->|N42].
+    { (* block *) destruct (block_ann r1) as [[a rest]|] eqn:E; [|left; reflexivity]. apply bind_ok, IH. pose proof (block_ann_len _ _ _ E). cbn [length] in *. lia. }
+    destruct (N.eq_dec c1 47) as [->|N47].
+    { (* line *) pose proof (take_line_len r1) as L. destruct (take_line r1) as [text rest]. cbn [snd] in L.
       destruct (parse_ann text); [|left; reflexivity]. apply bind_ok, IH. cbn [length] in *. lia. }
+    dhead c1; try (left; reflexivity); congruence. }
   destruct (c =? 64).
   { pose proof (take_while_len name_byte r) as L1. destruct (take_while name_byte r) as [nm r'] eqn:E. cbn [snd] in L1.
     pose proof (ref_names_len (length r') r' [64 :: nm]) as L2. destruct (ref_names (length r') r' [64 :: nm]) as [names rest]. cbn [snd] in L2.
     apply bind_ok, IH. lia. }
   destruct (scalar (c :: r)) as [[lit rest]|] eqn:E; [|left; reflexivity].
-  apply bind_ok, IH. pose proof (scalar_len _ _ _ E) as L. apply scalar_spec in E. destruct E as [E Hl].
-  destruct (scalar_head lit Hl) as (c0 & l' & -> & _). cbn [app] in E. inversion E; subst. cbn [length] in *.
-  assert (length rest <= length r)%nat by (rewrite H1, app_length; lia). lia.
+  apply bind_ok, IH. apply scalar_spec in E. destruct E as [E Hl].
+  destruct (scalar_head lit Hl) as (c0 & l' & -> & _). cbn [app] in E. inversion E; subst. rewrite app_length in Hf. lia.
 Qed.
